@@ -34,6 +34,9 @@ func Hashes(c *Check, part string, o Options, n int) int {
 	if w := os.Getenv("VERIF_WORKERS"); w != "" {
 		fmt.Sscan(w, &workers)
 	}
+	if p.Shards {
+		workers = 1 // process-global seams: one run at a time
+	}
 	out := make([]string, n)
 	var next uint64
 	var wg sync.WaitGroup
